@@ -28,6 +28,8 @@ DECLS_TOKENS = [
     ('b', 'f(g(a) b) c', [(0, 9), (10, 11)]),
     ('b', 'f(g(1, 2) + 3) d', [(0, 14), (15, 16)]),
 ]
+# with a value-less statement in the rotation (`@include x;`): only the select_item_* expectations are defined for it
+DECLS_WITH_STATEMENT = [DECLS_TOKENS[0], ('@include x', None, []), DECLS_TOKENS[3], DECLS_TOKENS[1], ('@extend .y', None, [])]
 
 
 def shapes(n, depth):
@@ -96,6 +98,16 @@ def emit(shape, rotation=0, layout='compact', decls=None, last_without_semicolon
             s = pos[0]
             w(name)
             rec['name'] = (s, pos[0])
+            if value is None:
+                # statement without a value: name only, terminated by `;`
+                rec['kind'] = 'stmt'
+                rec['value'] = None
+                rec['semicolon'] = pos[0]
+                w(';')
+                rec['start'], rec['end'] = s, pos[0]
+                if spaced:
+                    w('\n')
+                return
             w(': ' if spaced else ':')
             vs = pos[0]
             w(value)
